@@ -241,7 +241,7 @@ class Gen:
             return self.node(['CondSum'], ks, 'real')
         if lt(0.06) and self.ok('Elem'):
             return self.elem(d)
-        if lt(0.07) and self.variables and self.ok('LogLogit'):
+        if lt(0.07) and self.ok('LogLogit'):
             return self.loglogit(d)
         if lt(0.04):
             return self.node(['Un', 'Logzero'], [self.rng.choice([self.pos(d - 1), self.node(['Num', 0, 0]), self.boolean(d - 1)])], 'real')
@@ -284,14 +284,19 @@ class Gen:
         avs = []
         for k in keys:
             r = self.rng.random()
-            if r < 0.4:
+            if not self.variables:
+                # pure-Python evaluator: numeric availabilities, some alternatives unavailable
+                avs.append(self.node(['Num', 1, 0] if r < 0.6 else ['Num', 0, 0]))
+            elif r < 0.1:
+                avs.append(self.node(['Num', 0, 0]))
+            elif r < 0.4:
                 avs.append(self.node(['Num', 1, 0]))
             else:
                 nm = self.rng.choice(AV_NAMES)
                 self.used_av.add(nm)
                 avs.append(self.node(['Var', nm]))
         # the chosen alternative: a numeric or the key column
-        if self.uses_key or self.rng.random() < 0.5:
+        if self.uses_key or not self.variables or self.rng.random() < 0.5:
             choice = self.node(['Num'] + norm(self.rng.choice(keys)))
         else:
             choice = self.node(['Var', KEY_NAME])
